@@ -4,7 +4,9 @@
 # usage: selftest/c16_mutants.py [name ...]      (m* must alarm, h* must stay quiet)
 import os, shutil, subprocess, sys, re, json
 WK = os.path.dirname(os.path.dirname(os.path.abspath(__file__)))
+REPO_SRC = os.environ.get('C16_MUTANT_BASE', '/repo')      # the tree the mutants are applied to
 M = {}
+ALT = {}
 def mut(name, file, old, new):
     M[name] = (file, old, new)
 mut('m1_no_finally', 'errors.py', """    try:
@@ -46,7 +48,12 @@ mut('m26_format_error_formats_line', 'errors.py', "    lines.append(u'{0}{1}'.fo
 mut('m27_lineless_context_typeerror', 'scanner.py', "        if error_lineno is not None:\n            error_lineno0 = error_lineno - 1", "        if True:\n            error_lineno0 = error_lineno - 1")
 mut('m28_lineless_str', 'scanner.py', "pos = u' in line {0}'.format(self.lineno) if self.lineno is not None else ''", "pos = u' in line {0}'.format(self.lineno + 0)")
 # PluginNotFound tests the group instead of the name: no extension -> AssertionError
-mut('m29_plugin_no_extension_assert', 'plugin/__init__.py', "        if not name.startswith('.'):\n            message = u'plugin {plugin_group}.{name} not found'.format(\n                plugin_group=plugin_group,\n                name=name,\n            )\n        else:\n            assert plugin_group.endswith('.suffixes')", "        if not plugin_group.endswith('.suffixes'):\n            message = u'plugin {plugin_group}.{name} not found'.format(\n                plugin_group=plugin_group,\n                name=name,\n            )\n        else:\n            assert name.startswith('.')")
+# (two spellings: before and after fix 3f5a30c)
+ALT['m29_plugin_no_extension_assert'] = [
+    ('plugin/__init__.py', "        else:\n            message = (\n                u'plugin {plugin_group} for suffix", "        else:\n            assert name.startswith('.')\n            message = (\n                u'plugin {plugin_group} for suffix"),
+    ('plugin/__init__.py', "        if not name.startswith('.'):\n            message = u'plugin {plugin_group}.{name} not found'.format(\n                plugin_group=plugin_group,\n                name=name,\n            )\n        else:\n            assert plugin_group.endswith('.suffixes')", "        if not plugin_group.endswith('.suffixes'):\n            message = u'plugin {plugin_group}.{name} not found'.format(\n                plugin_group=plugin_group,\n                name=name,\n            )\n        else:\n            assert name.startswith('.')"),
+]
+M['m29_plugin_no_extension_assert'] = ALT['m29_plugin_no_extension_assert'][0]
 # harmless
 mut('h1_refactor_capture', 'errors.py', """    global captured_errors
     captured_errors = []
@@ -72,10 +79,14 @@ mut('h6_private_attr_renamed', 'scanner.py', ("self.error_context_info = parser.
 sel = sys.argv[1:] or sorted(M)
 for name in sel:
     file, old, new = M[name]
+    for cand in ALT.get(name, []):
+        if open(REPO_SRC + '/pybtex/' + cand[0]).read().count(cand[1]) == 1:
+            file, old, new = cand
+            break
     d = '/dev/shm/c16_m_' + name
     shutil.rmtree(d, ignore_errors=True)
     os.makedirs(d)
-    shutil.copytree('/repo/pybtex', d + '/pybtex')
+    shutil.copytree(REPO_SRC + '/pybtex', d + '/pybtex')
     p = d + '/pybtex/' + file
     s = open(p).read()
     olds, news = (old, new) if isinstance(old, tuple) else ((old,), (new,))
